@@ -259,11 +259,13 @@ theorem wfOperation_of_shape (v : Version) {route : B} {o : Operation Schema} (h
   · intro r hr
     obtain ⟨h1, h2⟩ := h.resps r hr
     simp only [wfResp, Bool.and_eq_true]
-    refine ⟨⟨specCodeOK_of_valid _ h1, by simpa using h2⟩, ?_⟩
-    cases hx : r.schema with
-    | none => rfl
-    | some x =>
-      exact hs x (by simp only [Operation.schemas, mem_append, mem_filterMap]; exact Or.inr ⟨r, hr, hx⟩)
+    refine ⟨⟨⟨specCodeOK_of_valid _ h1, by simpa using h2⟩, ?_⟩, ?_⟩
+    · cases hx : r.schema with
+      | none => rfl
+      | some x =>
+        exact hs x (by simp only [Operation.schemas, mem_append, mem_filterMap]; exact Or.inr ⟨r, hr, hx⟩)
+    · have := h.exX r hr
+      cases he : r.hasExample <;> cases hn : r.exampleNames <;> simp_all
 
 
 /-- every key of the built `paths` is the converted path of an operation handed in -/
